@@ -32,6 +32,8 @@ EXCEPTIONS = [
     {"t": "exc", "cls": "TwoArgErr", "rebuild": False, "kind": "exc"},
     {"t": "exc", "cls": "PickyErr", "rebuild": False, "kind": "exc"},
     {"t": "exc", "cls": "LocalErr", "rebuild": False, "kind": "exc"},
+    {"t": "exc", "cls": "Outer.Inner", "rebuild": True, "kind": "exc"},          # a top-level class Inner exists as well
+    {"t": "exc", "cls": "Outer.Deep.Err", "rebuild": True, "kind": "exc"},
     {"t": "exc", "cls": "NotRecorded", "rebuild": True, "kind": "nonmemo"},
 ]
 
